@@ -79,8 +79,10 @@ def torture_project(docformat):
             'docformat': docformat}
 
 def parses(text):
+    """what pydoctor itself hands to the parser: the bytes of the file plus a newline (astbuilder.parseFile), so a file
+    ending in a backslash-newline, which Python rejects, is parsed by pydoctor"""
     try:
-        ast.parse(text)
+        ast.parse(text.encode('utf-8', 'surrogateescape') + b'\n')
         return True
     except (SyntaxError, ValueError, RecursionError, MemoryError):
         return False
@@ -227,6 +229,24 @@ def main():
                             ['bmov.py', 'from amov import K, L, f\n__all__ = ["K", "L", "f"]\nz = 1\n']], 'docformat': 'epytext'})
     cases.append({'files': [['zmov.py', 'class K:\n    import bmov2\n    class N:\n        def m(self): pass\n'],
                             ['bmov2.py', 'from zmov import K\n__all__ = ["K"]\n']], 'docformat': 'epytext'})
+    # signatures that cannot be re-parsed (NBSP -> &nbsp;, non-XML code points) on every kind of function object:
+    # plain, method, overloads (FunctionOverload is not a Documentable), property setter, class with such a constructor
+    weird = ("from typing import overload, Literal\n"
+             "def plain(a='x\u00a0y', b: Literal['\uffff'] = '\uffff'): pass\n"
+             "@overload\ndef ov(a: int = 1, s='\u00a0') -> int: ...\n"
+             "@overload\ndef ov(a: str, s: Literal['\uffff'] = '\uffff') -> str: ...\n"
+             "def ov(a, s=None): return a\n"
+             "class K:\n    def __init__(self, a='\u00a0', *args: 'Literal[\"\uffff\"]', **kw): pass\n"
+             "    @overload\n    def m(self, a: int = 1, s='\u00a0\x0c') -> int: ...\n"
+             "    @overload\n    def m(self, a: str, s='\ufffe') -> str: ...\n"
+             "    def m(self, a, s=None): return a\n"
+             "    @property\n    def p(self) -> 'Literal[\"\u00a0\"]': return 1\n"
+             "    @p.setter\n    def p(self, v='\u00a0'): pass\n"
+             "    @staticmethod\n    @overload\n    def st(a=b'\\xa0\\xff') -> int: ...\n"
+             "    @staticmethod\n    def st(a=None): pass\n"
+             "CONST = '\u00a0\uffff\x0c'\n")
+    for df in ('epytext', 'restructuredtext', 'plaintext'):
+        cases.append({'files': [['weird.py', weird]], 'docformat': df})
     cases.append({'files': [['deep.py', 'x = ' + '[' * 60 + ']' * 60 + '\n' + 'y = ' + '(' * 150 + '1' + ')' * 150 + '\n']], 'docformat': 'epytext'})
     failures = []
     hist = {}
